@@ -6,6 +6,7 @@ from shapes import *
 def shapes(tier):
     b = CsrShape()
     out = [b, replace(b, ku=1), replace(b, san=(1,)), replace(b, eku=(1,)), replace(b, custom=1), replace(b, attrs=1), replace(b, attrs=2),
+           replace(b, attr_req=1), replace(b, san=(1,), attr_req=1), replace(b, ku=1, attrs=1, attr_req=1),
            replace(b, san=(1, 3), ku=4, eku=(2, 7), custom=2, custom_crit=1, attrs=2)]
     if tier == "thorough":
         for k in (0, 2, 3, 4):
@@ -38,7 +39,7 @@ def spec(tier, seed):
                         functions=CSR_FUNCS, timeout=900,
                         shape=f"unsupported field(s) set: {what}" + (f" [{cks[ck]}]" if m & 2 else "") + "; Err(UnsupportedInCsr) and nothing signed"))
     return {"queries": qs, "exhaustive": False,
-            "bounds": "CSR shapes: <= 2 SANs (all variants but otherName), key-usage classes, <= 2 EKUs, <= 2 custom extensions, <= 2 caller attributes "
+            "bounds": "CSR shapes: <= 2 SANs (all variants but otherName), key-usage classes, <= 2 EKUs, <= 2 custom extensions, <= 2 caller attributes plus optionally one caller attribute of type extensionRequest itself "
                       "(concrete 3-arc OIDs, 5-byte SET value with a symbolic byte), strings 1..3 bytes symbolic; refusal: one query per combination of unsupported fields x CA variant (63 in all; quick runs the 7 single-field ones, all-set and 4 seeded others)",
             "outside": "subject name content (engine M); parse-back round trip (x509-parser); otherName SANs at artefact level",
             "assumptions": ["S1, S3 as in DESIGN.md 2.2", "array-backed enum vectors", "CBMC --max-field-sensitivity-array-size 2048"]}
